@@ -39,10 +39,15 @@ Arguments as_remove {K V} keq k m.
 Definition oname_eqb (a b : option name) : bool :=
   match a, b with Some x, Some y => name_eqb x y | None, None => true | _, _ => false end.
 
-Inductive scope := ScOp (n : option name) | ScFrag (n : name).
+(* an operation scope is the operation's index in the document (the number of operations entered
+   before it) and its name: operations that share a name (or are both anonymous) do not share a
+   table *)
+Inductive scope := ScOp (i : nat) (n : option name) | ScFrag (n : name).
+Definition opkey_eqb (a b : nat * option name) : bool :=
+  Nat.eqb (fst a) (fst b) && oname_eqb (snd a) (snd b).
 Definition scope_eqb (a b : scope) : bool :=
   match a, b with
-  | ScOp x, ScOp y => oname_eqb x y
+  | ScOp i x, ScOp j y => opkey_eqb (i, x) (j, y)
   | ScFrag x, ScFrag y => name_eqb x y
   | _, _ => false
   end.
@@ -348,42 +353,48 @@ Definition pfs_step (s : sdocument) (d : document) (st : list verror) (e : event
   end.
 
 (* ================================================================ no_unused_variables.rs / no_undefined_variables.rs *)
+(* operations_seen counts the operation definitions entered; the operation scope and the key of
+   defined_variables are (index, name) *)
 Record vars_state := mkVars {
   vs_scope : option scope;
-  vs_defined : list (option name * list name);     (* HashMap<Option<&str>, HashSet<&str>> *)
+  vs_defined : list ((nat * option name) * list name);     (* HashMap<(usize, Option<&str>), HashSet<&str>> *)
+  vs_seen : nat;                                           (* operations_seen *)
   vs_used : list (scope * list name);
   vs_spreads : list (scope * list name) }.
 
-Definition vars_init : vars_state := mkVars None [] [] [].
+Definition vars_init : vars_state := mkVars None [] 0 [] [].
 
 Definition vars_collect (st : vars_state) (e : event) : vars_state :=
   match e with
   | Enter (NOperation o) =>
-      mkVars (Some (ScOp (op_node_name o)))
-             (match as_get oname_eqb (op_node_name o) (vs_defined st) with
-              | Some _ => as_set oname_eqb (op_node_name o) [] (vs_defined st)
-              | None => vs_defined st ++ [(op_node_name o, [])]
+      let op_index := vs_seen st in
+      mkVars (Some (ScOp op_index (op_node_name o)))
+             (match as_get opkey_eqb (op_index, op_node_name o) (vs_defined st) with
+              | Some _ => as_set opkey_eqb (op_index, op_node_name o) [] (vs_defined st)
+              | None => vs_defined st ++ [((op_index, op_node_name o), [])]
               end)
-             (vs_used st) (vs_spreads st)
-  | Enter (NFragmentDef f) => mkVars (Some (ScFrag (fr_name f))) (vs_defined st) (vs_used st) (vs_spreads st)
+             (S op_index) (vs_used st) (vs_spreads st)
+  | Enter (NFragmentDef f) =>
+      mkVars (Some (ScFrag (fr_name f))) (vs_defined st) (vs_seen st) (vs_used st) (vs_spreads st)
   | Enter (NSpread (SSpread _ n _)) =>
       match vs_scope st with
-      | Some sc => mkVars (vs_scope st) (vs_defined st) (vs_used st) (as_push scope_eqb sc n (vs_spreads st))
+      | Some sc => mkVars (vs_scope st) (vs_defined st) (vs_seen st) (vs_used st)
+                          (as_push scope_eqb sc n (vs_spreads st))
       | None => st
       end
   | Enter (NVarDef v) =>
       match vs_scope st with
-      | Some (ScOp n) =>
-          match as_get oname_eqb n (vs_defined st) with
-          | Some vars => mkVars (vs_scope st) (as_set oname_eqb n (set_add (v_name v) vars) (vs_defined st))
-                                (vs_used st) (vs_spreads st)
+      | Some (ScOp i n) =>
+          match as_get opkey_eqb (i, n) (vs_defined st) with
+          | Some vars => mkVars (vs_scope st) (as_set opkey_eqb (i, n) (set_add (v_name v) vars) (vs_defined st))
+                                (vs_seen st) (vs_used st) (vs_spreads st)
           | None => st
           end
       | _ => st
       end
   | Enter (NArgument a) =>
       match vs_scope st with
-      | Some sc => mkVars (vs_scope st) (vs_defined st)
+      | Some sc => mkVars (vs_scope st) (vs_defined st) (vs_seen st)
                           (as_append scope_eqb sc (variables_in_use (snd a)) (vs_used st)) (vs_spreads st)
       | None => st
       end
@@ -416,8 +427,9 @@ Fixpoint vars_walk (fuel : nat) (st : vars_state) (pick : name -> bool) (from : 
 Definition vars_fuel (d : document) : nat := S (S (S (total_spreads d))).
 
 Definition nuv_finish (d : document) (st : vars_state) : rule_result :=
-  fold_left (fun (res : rule_result) (entry : option name * list name) =>
-               match vars_walk (vars_fuel d) st (fun v => mem_name v (snd entry)) (ScOp (fst entry)) [] [] with
+  fold_left (fun (res : rule_result) (entry : (nat * option name) * list name) =>
+               match vars_walk (vars_fuel d) st (fun v => mem_name v (snd entry))
+                               (ScOp (fst (fst entry)) (snd (fst entry))) [] [] with
                | Some (used, _) =>
                    mkRes (r_errors res ++
                           flat_map (fun v => if mem_name v used then [] else [err R_NoUnusedVariables []]) (snd entry))
@@ -426,8 +438,9 @@ Definition nuv_finish (d : document) (st : vars_state) : rule_result :=
                end) (vs_defined st) (mkRes [] false).
 
 Definition nudv_finish (d : document) (st : vars_state) : rule_result :=
-  fold_left (fun (res : rule_result) (entry : option name * list name) =>
-               match vars_walk (vars_fuel d) st (fun v => negb (mem_name v (snd entry))) (ScOp (fst entry)) [] [] with
+  fold_left (fun (res : rule_result) (entry : (nat * option name) * list name) =>
+               match vars_walk (vars_fuel d) st (fun v => negb (mem_name v (snd entry)))
+                               (ScOp (fst (fst entry)) (snd (fst entry))) [] [] with
                | Some (undefined, _) =>
                    mkRes (r_errors res ++ map (fun _ => err R_NoUndefinedVariables []) undefined) (r_oof res)
                | None => mkRes (r_errors res) true
@@ -575,11 +588,12 @@ Record viap_state := mkViap {
   vp_usages : list (scope * list (name * ty * bool));
   vp_defs : list (scope * list vardef);
   vp_scope : option scope;
+  vp_seen : nat;                                              (* operations_seen *)
   vp_directive : option name;
   vp_objects : list (option name);                            (* input_object_stack, top first *)
   vp_defaults : list bool }.                                  (* location_default_stack, top first *)
 
-Definition viap_init : viap_state := mkViap [] [] [] None None [] [].
+Definition viap_init : viap_state := mkViap [] [] [] None 0 None [] [].
 
 Definition has_default_in (defs : option (list input_value_def)) (n : name) : bool :=
   match opt_bind defs (fun ds => find_first (fun x => name_eqb (iv_name x) n) ds) with
@@ -590,22 +604,22 @@ Definition has_default_in (defs : option (list input_value_def)) (n : name) : bo
 Definition viap_collect (s : sdocument) (st : viap_state) (e : event) (c : ctx) : viap_state :=
   match e with
   | Enter (NFragmentDef f) =>
-      mkViap (vp_spreads st) (vp_usages st) (vp_defs st) (Some (ScFrag (fr_name f))) (vp_directive st) (vp_objects st) (vp_defaults st)
+      mkViap (vp_spreads st) (vp_usages st) (vp_defs st) (Some (ScFrag (fr_name f))) (vp_seen st) (vp_directive st) (vp_objects st) (vp_defaults st)
   | Enter (NOperation o) =>
-      mkViap (vp_spreads st) (vp_usages st) (vp_defs st) (Some (ScOp (op_node_name o))) (vp_directive st) (vp_objects st) (vp_defaults st)
+      mkViap (vp_spreads st) (vp_usages st) (vp_defs st) (Some (ScOp (vp_seen st) (op_node_name o))) (S (vp_seen st)) (vp_directive st) (vp_objects st) (vp_defaults st)
   | Enter (NSpread (SSpread _ n _)) =>
       match vp_scope st with
       | Some sc =>
           mkViap (match as_get scope_eqb sc (vp_spreads st) with
                   | Some l => as_set scope_eqb sc (set_add n l) (vp_spreads st)
                   | None => vp_spreads st ++ [(sc, [n])]
-                  end) (vp_usages st) (vp_defs st) (vp_scope st) (vp_directive st) (vp_objects st) (vp_defaults st)
+                  end) (vp_usages st) (vp_defs st) (vp_scope st) (vp_seen st) (vp_directive st) (vp_objects st) (vp_defaults st)
       | None => st
       end
   | Enter (NVarDef v) =>
       match vp_scope st with
       | Some sc => mkViap (vp_spreads st) (vp_usages st) (as_push scope_eqb sc v (vp_defs st)) (vp_scope st)
-                          (vp_directive st) (vp_objects st) (vp_defaults st)
+                          (vp_seen st) (vp_directive st) (vp_objects st) (vp_defaults st)
       | None => st
       end
   | Enter (NVariable n) =>
@@ -613,31 +627,31 @@ Definition viap_collect (s : sdocument) (st : viap_state) (e : event) (c : ctx) 
       | Some sc, Some t =>
           mkViap (vp_spreads st)
                  (as_push scope_eqb sc (n, t, match vp_defaults st with b :: _ => b | [] => false end) (vp_usages st))
-                 (vp_defs st) (vp_scope st) (vp_directive st) (vp_objects st) (vp_defaults st)
+                 (vp_defs st) (vp_scope st) (vp_seen st) (vp_directive st) (vp_objects st) (vp_defaults st)
       | _, _ => st
       end
   | Enter (NDirective d) =>
-      mkViap (vp_spreads st) (vp_usages st) (vp_defs st) (vp_scope st) (Some (d_name d)) (vp_objects st) (vp_defaults st)
+      mkViap (vp_spreads st) (vp_usages st) (vp_defs st) (vp_scope st) (vp_seen st) (Some (d_name d)) (vp_objects st) (vp_defaults st)
   | Leave (NDirective _) =>
-      mkViap (vp_spreads st) (vp_usages st) (vp_defs st) (vp_scope st) None (vp_objects st) (vp_defaults st)
+      mkViap (vp_spreads st) (vp_usages st) (vp_defs st) (vp_scope st) (vp_seen st) None (vp_objects st) (vp_defaults st)
   | Enter (NArgument a) =>
       let defs := match vp_directive st with
                   | Some dn => opt_map dd_args (directive_by_name s dn)
                   | None => opt_map fd_args (current_field c)
                   end in
-      mkViap (vp_spreads st) (vp_usages st) (vp_defs st) (vp_scope st) (vp_directive st) (vp_objects st)
+      mkViap (vp_spreads st) (vp_usages st) (vp_defs st) (vp_scope st) (vp_seen st) (vp_directive st) (vp_objects st)
              (has_default_in defs (fst a) :: vp_defaults st)
   | Leave (NArgument _) =>
-      mkViap (vp_spreads st) (vp_usages st) (vp_defs st) (vp_scope st) (vp_directive st) (vp_objects st) (tl (vp_defaults st))
+      mkViap (vp_spreads st) (vp_usages st) (vp_defs st) (vp_scope st) (vp_seen st) (vp_directive st) (vp_objects st) (tl (vp_defaults st))
   | Enter (NList _) =>
-      mkViap (vp_spreads st) (vp_usages st) (vp_defs st) (vp_scope st) (vp_directive st) (vp_objects st) (false :: vp_defaults st)
+      mkViap (vp_spreads st) (vp_usages st) (vp_defs st) (vp_scope st) (vp_seen st) (vp_directive st) (vp_objects st) (false :: vp_defaults st)
   | Leave (NList _) =>
-      mkViap (vp_spreads st) (vp_usages st) (vp_defs st) (vp_scope st) (vp_directive st) (vp_objects st) (tl (vp_defaults st))
+      mkViap (vp_spreads st) (vp_usages st) (vp_defs st) (vp_scope st) (vp_seen st) (vp_directive st) (vp_objects st) (tl (vp_defaults st))
   | Enter (NObject _) =>
-      mkViap (vp_spreads st) (vp_usages st) (vp_defs st) (vp_scope st) (vp_directive st)
+      mkViap (vp_spreads st) (vp_usages st) (vp_defs st) (vp_scope st) (vp_seen st) (vp_directive st)
              (opt_map td_name (current_input_type c) :: vp_objects st) (vp_defaults st)
   | Leave (NObject _) =>
-      mkViap (vp_spreads st) (vp_usages st) (vp_defs st) (vp_scope st) (vp_directive st) (tl (vp_objects st)) (vp_defaults st)
+      mkViap (vp_spreads st) (vp_usages st) (vp_defs st) (vp_scope st) (vp_seen st) (vp_directive st) (tl (vp_objects st)) (vp_defaults st)
   | Enter (NObjectField kv) =>
       let hd := match vp_objects st with
                 | Some tn :: _ =>
@@ -647,9 +661,9 @@ Definition viap_collect (s : sdocument) (st : viap_state) (e : event) (c : ctx) 
                     end
                 | _ => false
                 end in
-      mkViap (vp_spreads st) (vp_usages st) (vp_defs st) (vp_scope st) (vp_directive st) (vp_objects st) (hd :: vp_defaults st)
+      mkViap (vp_spreads st) (vp_usages st) (vp_defs st) (vp_scope st) (vp_seen st) (vp_directive st) (vp_objects st) (hd :: vp_defaults st)
   | Leave (NObjectField _) =>
-      mkViap (vp_spreads st) (vp_usages st) (vp_defs st) (vp_scope st) (vp_directive st) (vp_objects st) (tl (vp_defaults st))
+      mkViap (vp_spreads st) (vp_usages st) (vp_defs st) (vp_scope st) (vp_seen st) (vp_directive st) (vp_objects st) (tl (vp_defaults st))
   | _ => st
   end.
 
